@@ -4,6 +4,7 @@ CONSTANTS
   MaxFailures = 2
   DrainOnSuccess = FALSE
   SkipUnchanged = TRUE
+  RearmOnlyAfterTrigger = FALSE
   Strategy = "REPLICA"
 INVARIANTS BoundedRounds TriggerKept
 CHECK_DEADLOCK FALSE
